@@ -27,6 +27,12 @@ Handle(policy, vm, st, line) ==
       s5 == IF Eff(policy, vm, "raise") THEN [s4 EXCEPT !.raised = TRUE] ELSE s4
   IN s5
 
+\* several components of one line may raise: every error is handed to the handler in component order,
+\* unless an earlier one raised to the caller
+RECURSIVE HandleN(_, _, _, _, _)
+HandleN(policy, vm, st, line, n) ==
+  IF n = 0 \/ st.raised THEN st ELSE HandleN(policy, vm, Handle(policy, vm, st, line), line, n - 1)
+
 \* does a line with an error match?  only a built-in argument-validation error on a component that
 \* is itself the match component can be turned into a match by validation-mode: match
 ErrLineMatches(vm, kind) == kind = "argtop" /\ "match" \in DOMAIN vm /\ vm["match"]
